@@ -89,6 +89,9 @@ func init() {
 		return &TupleV{}
 	}
 	externs[vp+"MarshalTo"] = func(e *Exec, st *BState, x *ssa.Call, args []SV) SV {
+		// marshaled(): the value most recently serialised (ghost), for postconditions about what was written
+		st.ghost["$marshaled"] = args[0]
+		ghostTypes["$marshaled"] = x.Call.Args[0].Type()
 		return e.freshSV(x.Type(), "marshal", st.reach, false)
 	}
 }
@@ -118,6 +121,11 @@ func (env *SpecEnv) jsonSpec(name string, n *ast.CallExpr) (SV, bool) {
 		return boolSV(sel(sel(e.heapArr(st, jHasFld, arrSort(SInt, sortArrStB)), addr(), sortArrStB), scal(env.eval(n.Args[1])), SBool)), true
 	case "jname":
 		return &Scalar{T: sel(sel(e.heapArr(st, jNameAt, arrSort(SInt, sortArrISt)), addr(), sortArrISt), scal(env.eval(n.Args[1])), SStr), Ty: types.Typ[types.String]}, true
+	case "marshaled":
+		if v, ok := st.ghost["$marshaled"]; ok {
+			return v, true
+		}
+		panic("marshaled(): no MarshalTo before this point")
 	case "isFinite":
 		f := scal(env.eval(n.Args[0]))
 		return boolSV(and(not(app(SBool, "fp.isNaN", f)), not(app(SBool, "fp.isInfinite", f)))), true
